@@ -11,3 +11,4 @@ pub mod engine;
 pub mod misc;
 pub mod client;
 pub mod options;
+pub mod client2;
